@@ -44,7 +44,8 @@ import re
 from ..cfg import CFG
 from ..core import (AnalysisError, call_name, const_str, find_calls, kwarg,
                     last_attr, names_in, short, txt, walk)
-from ..lib_C11 import (Func, Interp, ModelRaise, Namespace, NdArray)
+from ..lib_C11 import (ClassModel, Func, Interp, ModelRaise, Namespace,
+                       NdArray)
 
 ASSUMPTIONS = [
     "NOT decided: the closure 'whatever the writer/export/CLI produce is "
@@ -181,13 +182,8 @@ class Model:
         g = {}
         self.globs = g
 
-        def icue(msg, level, category, data=None, identifier=None,
-                 cfg_section=None, cfg_key=None, cfg_choices=None):
-            return Namespace("ICue", msg=msg, level=level,
-                             category=category, cfg_section=cfg_section,
-                             cfg_key=cfg_key)
-        icue.model_callable = True
-        g["ICue"] = icue
+        self.icue = ClassModel(repo.cls(CHK, "ICue"), g, self.interp)
+        g["ICue"] = self.icue
         g["copy"] = Namespace("copy", deepcopy=_copy.deepcopy)
 
         def np_all(a):
@@ -225,10 +221,11 @@ class Model:
         self.methods = {f.name: f for f in self.cls.body
                         if isinstance(f, ast.FunctionDef)}
         self.rectified = {}
-        g["IntegrityChecker"] = Namespace(
-            "IntegrityChecker",
+        self.checker = ClassModel(
+            self.cls, g, self.interp, strict_instances=True,
             **{"__dict__": {n: Func(f, g, self.interp)
                             for n, f in self.methods.items()}})
+        g["IntegrityChecker"] = self.checker
 
     # -- dataset scenarios -------------------------------------------
     def base(self, channels=(1, 2)):
@@ -288,7 +285,7 @@ class Model:
         if f is None:
             raise AnalysisError("IntegrityChecker.has_fluorescence vanished")
         self.interp.steps = 0
-        me = Namespace("self", ds=ds, warn_cues=[])
+        me = self.checker.instance(ds=ds, warn_cues=[])
         try:
             return bool(Func(f, self.globs, self.interp)(me))
         except ModelRaise as e:
@@ -301,7 +298,8 @@ class Model:
         if has_fl is None:
             has_fl = self.has_fluorescence(ds)
         self.interp.steps = 0
-        me = Namespace("self", ds=ds, has_fluorescence=has_fl, warn_cues=[])
+        me = self.checker.instance(ds=ds, has_fluorescence=has_fl,
+                                   warn_cues=[])
         return Func(f, self.globs, self.interp)(me, **kwargs)
 
 
@@ -319,11 +317,11 @@ def collected_sets(model, chk):
             f.model_callable = True
             return f
         g = dict(model.globs)
-        g["IntegrityChecker"] = Namespace(
-            "IntegrityChecker",
+        g["IntegrityChecker"] = ClassModel(
+            model.cls, g, model.interp,
             **{"__dict__": {n: rec(n) for n in model.methods}})
-        me = Namespace("self", ds=model.base(), has_fluorescence=has_fl,
-                       warn_cues=[])
+        me = model.checker.instance(ds=model.base(),
+                                    has_fluorescence=has_fl, warn_cues=[])
         model.interp.steps = 0
         try:
             Func(chk, g, model.interp)(me)
@@ -717,11 +715,12 @@ def r132(ctx, repo, model, pattern, chk):
             f.model_callable = True
             return f
         g = dict(model.globs)
-        g["IntegrityChecker"] = Namespace(
-            "IntegrityChecker", **{"__dict__": {n: rec(n) for n in names}})
+        g["IntegrityChecker"] = ClassModel(
+            model.cls, g, model.interp,
+            **{"__dict__": {n: rec(n) for n in names}})
         ds = model.base()
-        me = Namespace("self", ds=ds, has_fluorescence=has_fl,
-                       warn_cues=["warn"])
+        me = model.checker.instance(ds=ds, has_fluorescence=has_fl,
+                                    warn_cues=["warn"])
         model.interp.steps = 0
         try:
             out = Func(chk, g, model.interp)(me, expand_section=False)
@@ -771,7 +770,7 @@ def r132(ctx, repo, model, pattern, chk):
     # refuses filtered datasets instead of silently checking a subset
     ds = model.base()
     ds.filter.all.n_true = N - 1
-    me = Namespace("self", ds=ds, has_fluorescence=True, warn_cues=[])
+    me = model.checker.instance(ds=ds, has_fluorescence=True, warn_cues=[])
     try:
         Func(chk, model.globs, model.interp)(me)
         ok = False
@@ -816,29 +815,69 @@ def r132(ctx, repo, model, pattern, chk):
         levels |= _fold_levels(lv, c)
     if "violation" not in levels or len(levels) < 3:
         raise AnalysisError(f"ICue levels not folded: {sorted(levels)}")
+    # ordering / summary of cues, interpreted on one model cue per level
     icue = repo.cls(CHK, "ICue")
+    inode = {f.name: f for f in icue.body if isinstance(f, ast.FunctionDef)}
     for meth in ("__eq__", "__lt__", "get_level_summary"):
-        f = [x for x in icue.body if isinstance(x, ast.FunctionDef)
-             and x.name == meth]
-        if not f:
+        if meth not in inode:
             raise AnalysisError(f"ICue.{meth} vanished")
-        dicts = [n for n in walk(f[0]) if isinstance(n, ast.Dict)]
-        keys = {const_str(k) for d in dicts for k in d.keys}
-        miss = levels - keys
-        ctx.ob("R13.2", not miss,
-               f"ICue.{meth} knows every level in use" if not miss else
-               f"ICue.{meth} does not know level(s) {sorted(miss)}: "
-               "KeyError when the cues are sorted / summarised",
-               node=f[0], key=f"{CHK}::ICue.{meth}::levels")
-    if True:
-        f = [x for x in icue.body if isinstance(x, ast.FunctionDef)
-             and x.name == "__lt__"][0]
-        d = [n for n in walk(f) if isinstance(n, ast.Dict)][0]
-        vals = [txt(v) for v in d.values]
-        ctx.ob("R13.2", len(set(vals)) == len(vals),
-               "levels have distinct ranks" if len(set(vals)) == len(vals)
-               else "two levels share a rank", node=d,
-               key=f"{CHK}::ICue.__lt__::distinct ranks", nontrivial=False)
+    lv = sorted(levels)
+
+    def cue_of(level):
+        return model.icue(msg="m", level=level, category="c")
+
+    def call(meth, a, b):
+        model.interp.steps = 0
+        return bool(Func(inode[meth], model.globs, model.interp)(a, b))
+    try:
+        cues_ = {x: cue_of(x) for x in lv}
+    except ModelRaise as e:
+        raise AnalysisError(f"ICue(...) raises {e} in the model")
+    bad_eq, bad_lt, ties = [], [], []
+    for x in lv:
+        for y in lv:
+            try:
+                eq = call("__eq__", cues_[x], cue_of(y))
+                if eq != (x == y):
+                    bad_eq.append(f"ICue({x}) == ICue({y}) is {eq}")
+            except ModelRaise as e:
+                bad_eq.append(f"comparing levels {x}/{y} raises {e.name}")
+            try:
+                lt = call("__lt__", cues_[x], cues_[y])
+                gt = call("__lt__", cues_[y], cues_[x])
+                if x == y and (lt or gt):
+                    bad_lt.append(f"ICue({x}) < ICue({x})")
+                if x != y and lt == gt:
+                    ties.append(f"levels {x} and {y} are not ordered "
+                                f"(a<b is {lt}, b<a is {gt})")
+            except ModelRaise as e:
+                bad_lt.append(f"ordering levels {x}/{y} raises {e.name}")
+    ctx.ob("R13.2", not bad_eq,
+           "ICue.__eq__ knows every level in use" if not bad_eq else
+           f"ICue.__eq__: {bad_eq[0]} (cue lists cannot be compared)",
+           node=inode["__eq__"], key=f"{CHK}::ICue.__eq__::levels")
+    ctx.ob("R13.2", not bad_lt,
+           "ICue.__lt__ knows every level in use" if not bad_lt else
+           f"ICue.__lt__: {bad_lt[0]}: the cues cannot be sorted",
+           node=inode["__lt__"], key=f"{CHK}::ICue.__lt__::levels")
+    ctx.ob("R13.2", not ties, "levels have distinct ranks" if not ties
+           else f"ICue.__lt__: {ties[0]}", node=inode["__lt__"],
+           key=f"{CHK}::ICue.__lt__::distinct ranks", nontrivial=False)
+    try:
+        model.interp.steps = 0
+        summ = Func(inode["get_level_summary"], model.globs, model.interp)(
+            [cues_[x] for x in lv] + [cue_of("violation")])
+        want = {x: 1 for x in lv}
+        want["violation"] = 2
+        ok = isinstance(summ, dict) and all(
+            summ.get(k) == v for k, v in want.items())
+        msg = f"get_level_summary gives {summ}, expected {want}"
+    except ModelRaise as e:
+        ok, msg = False, (f"get_level_summary raises {e.name} for the "
+                          f"levels {lv}")
+    ctx.ob("R13.2", ok, "ICue.get_level_summary counts every level in use"
+           if ok else "ICue." + msg, node=inode["get_level_summary"],
+           key=f"{CHK}::ICue.get_level_summary::levels")
 
     # check_dataset routing (interpreted)
     cd = repo.func(CHK, "check_dataset")
@@ -1015,6 +1054,8 @@ def r133(ctx, repo, model):
     rm = repo.func(WR, "RTDCWriter.rectify_metadata")
     interp = model.interp
     g = {"h5py": Namespace("h5py", Dataset=H5Dataset, Group=H5Group)}
+    writer = ClassModel(repo.cls(WR, "RTDCWriter"), g, interp,
+                        strict_instances=True)
     fails = {"event count": [], "roi size": [], "samples per event": [],
              "channel count": []}
     written = set()
@@ -1040,7 +1081,7 @@ def r133(ctx, repo, model):
                 else:
                     ev[f] = H5Dataset((N,), file)
                     feats[f] = Arr(N)
-            me = Namespace("self", h5file=h5, path="model.rtdc")
+            me = writer.instance(h5file=h5, path="model.rtdc")
             interp.steps = 0
             try:
                 Func(rm, g, interp)(me)
@@ -1145,6 +1186,27 @@ def r133(ctx, repo, model):
 
 # ----------------------------------------------------------------------
 
+def _guard(rid, fn, *args):
+    """an unrecognised shape must surface as a named analysis error, never
+    as a traceback"""
+    import traceback
+    try:
+        return fn(*args)
+    except AnalysisError:
+        raise
+    except ModelRaise as e:
+        raise AnalysisError(f"{rid}: interpreted code raises {e} outside a "
+                            "modelled scenario")
+    except Exception as e:
+        tb = traceback.extract_tb(e.__traceback__)
+        mine = [f for f in tb if f.filename.endswith(("C13.py",
+                                                      "lib_C11.py"))]
+        at = f"{mine[-1].name}:{mine[-1].lineno}" if mine else "?"
+        raise AnalysisError(
+            f"{rid}: unrecognised code shape ({type(e).__name__}: {e}) in "
+            f"{fn.__name__} at {at}")
+
+
 def run(ctx):
     repo = ctx.repo
     ctx.rule("R13.1", "each of the ten inconsistency classes, seeded into "
@@ -1157,12 +1219,12 @@ def run(ctx):
     ctx.rule("R13.3", "metadata derived by rectify_metadata satisfy the "
              "checker on every model feature set; docstring keys; run on "
              "exit", minimum=6)
-    model = Model(repo)
+    model = _guard("model", Model, repo)
     pattern, chk = collector_pattern(repo)
-    sets = collected_sets(model, chk)
-    r131(ctx, repo, model, pattern, sets)
-    r132(ctx, repo, model, pattern, chk)
-    r133(ctx, repo, model)
+    sets = _guard("R13.2", collected_sets, model, chk)
+    _guard("R13.1", r131, ctx, repo, model, pattern, sets)
+    _guard("R13.2", r132, ctx, repo, model, pattern, chk)
+    _guard("R13.3", r133, ctx, repo, model)
     ctx.model = model
     ctx.sets = sets
 
@@ -1525,4 +1587,45 @@ TWINS = list(TWINS) + [
       '                        self.ds.config["fluorescence"][kp] != 0):',
       '                        self.ds.config["fluorescence"].get(kp, 0) '
       '!= 0):')),
+]
+
+# behaviour-preserving maintenance refactoring (reduced)
+TWINS = list(TWINS) + [
+    ("cue comparison key moved into a private static method", CHK,
+     [('    def __eq__(self, other):\n'
+       '        leveld = {"info": 0,\n'
+       '                  "violation": 1,\n'
+       '                  "alert": 2,\n'
+       '                  }\n'
+       '        return ((leveld[self.level], self.cfg_section or "",\n'
+       '                 self.cfg_key or "", self.category, self.msg) ==\n'
+       '                (leveld[other.level], other.cfg_section or "",\n'
+       '                 other.cfg_key or "", other.category, other.msg))\n',
+       '    @staticmethod\n'
+       '    def _sort_key(cue):\n'
+       '        leveld = {"info": 0,\n'
+       '                  "violation": 1,\n'
+       '                  "alert": 2,\n'
+       '                  }\n'
+       '        return (leveld[cue.level], cue.cfg_section or "",\n'
+       '                cue.cfg_key or "", cue.category, cue.msg)\n\n'
+       '    def __eq__(self, other):\n'
+       '        return ICue._sort_key(self) == ICue._sort_key(other)\n'),
+      ('        leveld = {"info": 0,\n'
+       '                  "violation": 1,\n'
+       '                  "alert": 2, }\n'
+       '        return ((leveld[self.level], self.cfg_section or "",\n'
+       '                 self.cfg_key or "", self.category, self.msg) <\n'
+       '                (leveld[other.level], other.cfg_section or "",\n'
+       '                 other.cfg_key or "", other.category, other.msg))\n',
+       '        return ICue._sort_key(self) < ICue._sort_key(other)\n')]),
+    ("collector loop body moved into a helper method", CHK,
+     ('            elif ff.startswith("check_"):\n'
+      '                cues += funcs[ff](self, **kwargs)\n'
+      '        return sorted(self.warn_cues + cues)\n',
+      '            elif ff.startswith("check_"):\n'
+      '                cues += self._run_one(funcs[ff], **kwargs)\n'
+      '        return sorted(self.warn_cues + cues)\n\n'
+      '    def _run_one(self, func, **kwargs):\n'
+      '        return func(self, **kwargs)\n')),
 ]
